@@ -1,5 +1,6 @@
 import Zc.Proofs.SurviveNames
 import Zc.Proofs.SurviveApi
+import Zc.Proofs.NameTextGlue
 /-! # C15 — `RegSafe` from the API: what the validator guarantees, and where nothing does
 
 `C15_history_closed_partial` assumes `SvcSafe` of every service handed to `async_register_service` / `async_update_service`
@@ -11,7 +12,7 @@ encoder.  The library runs `service_type_name` (C19's model `Name.serviceTypeNam
   accepted name is at most 63 bytes — the `NamePartTooLongException` site is closed for the instance name;
 * `C15_nonstrict_name_refuted`: in non-strict mode (`strict=False`; also what `ServiceInfo.__init__`, `ServiceBrowser.__init__` and
   `AsyncServiceInfo` use) it is not: `_` + 70 × `a` + `._tcp.local.` is accepted and has a 71-byte label;
-* `C15_server_not_validated`: the validation does not look at `server` (nor at TXT, port, weight, priority, addresses), and looks at
+* `C15_server_not_validated_before_D28`: before the D28 repair the validation does not look at `server` (nor at TXT, port, weight, priority, addresses), and looks at
   `type_` only through `type_.endswith(service_type)`: any server name registers;
 * `C15_unencodable_server_refuted`: a 64-byte server label falsifies `SvcSafe`.
 
@@ -48,51 +49,109 @@ theorem C15_nonstrict_name_refuted :
     decide +kernel
 
 /-- the text-layer identity for application-supplied names: the labels `write_name(s)` writes are the UTF-8 encodings of pieces of
-`s.split('.')` (the standing trusted glue of the composition, here for `str` → labels; `TextGlue` is its wire → `str` → labels twin) -/
-def TextGlueS : Prop := ∀ s : String, ∀ l ∈ labelsOfText s, ∃ piece ∈ splitDot s.toList, l.length = utf8Len piece
+`s.split('.')`.  Formerly a named hypothesis; with the text layer modelled (`Zc.NameText`, wp-TEXTGLUE) it is the theorem `textGlueS`. -/
+def TextGlueS : Prop := ∀ s : String, ∀ l ∈ labelsOfText s, ∃ piece ∈ Name.splitDot s.toList, l.length = Name.utf8Len piece
+
+/-- C19's `split('.')` is the text layer's -/
+theorem nameSplitDot_eq (s : Str) : Name.splitDot s = NameText.splitDot s := by
+  unfold NameText.splitDot
+  induction s with
+  | nil => rfl
+  | cons c r ih =>
+    unfold Name.splitDot NameText.splitOn
+    rw [ih]
+    by_cases hc : c = '.'
+    · subst hc; simp [NameText.dot]
+    · simp only [hc, NameText.dot, if_false]
+      cases NameText.splitOn '.' r <;> rfl
+
+/-- C19's `len(s.encode('utf-8'))` is the length of the text layer's encoding -/
+theorem nameUtf8Len_eq (s : Str) : Name.utf8Len s = (NameText.encodeText s).length := by
+  unfold NameText.encodeText
+  rw [Survive.encode_length]
+  induction s with
+  | nil => rfl
+  | cons c r ih => simp only [Name.utf8Len, List.map_cons, List.sum_cons, Utf8.encLen, ih]
+
+/-- **`TextGlueS` holds**: dropping one trailing dot only drops the final empty piece -/
+theorem textGlueS : TextGlueS := by
+  intro s l hl
+  unfold labelsOfText NameText.labelsOfText at hl
+  obtain ⟨piece, hp, rfl⟩ := List.mem_map.mp hl
+  refine ⟨piece, ?_, (nameUtf8Len_eq piece).symm⟩
+  rw [nameSplitDot_eq]
+  unfold NameText.stripTrailingDot at hp
+  split at hp
+  · rename_i hdot
+    obtain ⟨t, ht⟩ := (NameText.endsWithDot_iff s.toList).mp hdot
+    rw [ht, List.dropLast_concat] at hp
+    rw [ht]
+    show piece ∈ NameText.splitOn NameText.dot (t ++ [NameText.dot])
+    rw [show t ++ [NameText.dot] = t ++ NameText.dot :: [] from rfl, NameText.splitOn_append_sep]
+    exact List.mem_append_left _ hp
+  · exact hp
 
 /-- **the name part of `SvcSafe` follows from the validator in strict mode**: a service that passed the name check of
 `async_register_service(strict=True)` has an instance name all of whose labels the encoder accepts -/
-theorem C15_registered_name_encodable (glue : TextGlueS) (s : Svc) (h : checkName s true = .ok ()) :
+theorem C15_registered_name_encodable (s : Svc) (h : checkName s true = .ok ()) :
     ∀ l ∈ labelsOfText s.name, l.length ≤ 63 := by
   unfold checkName at h
   split at h
   · cases h
   · rename_i t ht
     intro l hl
-    obtain ⟨piece, hp, hlen⟩ := glue s.name l hl
+    obtain ⟨piece, hp, hlen⟩ := textGlueS s.name l hl
     rw [hlen]
     exact C15_strict_name_labels_short _ t ht piece hp
 
-/-- **the server name is not validated** (nor is anything but the instance name and the type's suffix): the name check and the
-registry's verdict are the same for every server name -/
-theorem C15_server_not_validated (lower : String → String) {υ : Type} (d : CS υ) (s : Svc) (srv : String) (strict : Bool) :
+/-- **before the D28 repair the server name is not validated** (nor is anything but the instance name and the type's suffix): on a
+tree whose `async_register_service` does not encode the records first (translated leaf `register_encodes_first = false`), the name
+check and the registry's verdict are the same for every server name.  (With the repair the dry-run encode rejects it: the leaf is
+`true` and this theorem's hypothesis fails.) -/
+theorem C15_server_not_validated_before_D28 (hleaf : Gen.SurviveApi.register_encodes_first = false)
+    (lower : String → String) {υ : Type} (d : CS υ) (s : Svc) (srv : String) (strict : Bool) :
     checkName { s with server := srv } strict = checkName s strict ∧
     ((registerE lower d { s with server := srv } strict).toOption.isSome = (registerE lower d s strict).toOption.isSome) := by
   refine ⟨rfl, ?_⟩
   unfold registerE
   have : checkName { s with server := srv } strict = checkName s strict := rfl
-  rw [this]
+  rw [this, hleaf]
   cases checkName s strict with
   | error e => rfl
   | ok u =>
     dsimp only
-    simp only [Registry.add, Svc.key]
+    simp only [encodesFirst, Registry.add, Svc.key]
     by_cases hc : (sget lower (lower s.name) d.reg.services).isSome = true <;> simp [hc, Except.toOption]
+
+/-- **with the D28 repair an unencodable service is refused before the registry holds it**: when the tree encodes first
+(`register_encodes_first = true`) and the encoder raises on the service's records, `async_register_service` raises that exception to
+the caller and the composite state is untouched (the `register` block is a no-op) -/
+theorem C15_unencodable_registration_refused_after_D28 (hleaf : Gen.SurviveApi.register_encodes_first = true)
+    (lower : String → String) {υ : Type} (d : CS υ) (s : Svc) (strict : Bool) (e : PyExc)
+    (henc : Wire.Encode.packets (multicastMsg ⟨(broadcastRecs s).map wireOfRec, []⟩) = .error e) :
+    (∃ e', registerE lower d s strict = .error e') := by
+  unfold registerE
+  cases checkName s strict with
+  | error e' => exact ⟨e', rfl⟩
+  | ok u =>
+    dsimp only
+    rw [hleaf]
+    simp only [encodesFirst, henc, if_true]
+    exact ⟨e, rfl⟩
 
 /-- a 64-byte label (`h` × 64) in front of `local` -/
 def longHost : Wire.WName := [List.replicate 64 104, [108, 111, 99, 97, 108]]
 
-/-- **an unencodable server name falsifies `SvcSafe`** (under the text-layer identity): the SRV record's target has a 64-byte label.
-Together with `C15_server_not_validated`: the API accepts services that violate the data invariant of C15's survival theorems. -/
-theorem C15_unencodable_server_refuted (glue : TextGlue) (lower : String → String) (ettl : Nat) (s : Svc)
+/-- **an unencodable server name falsifies `SvcSafe`** (by the text-layer identity `textGlue`): the SRV record's target has a 64-byte label.
+Together with `C15_server_not_validated_before_D28`: the API accepts services that violate the data invariant of C15's survival theorems. -/
+theorem C15_unencodable_server_refuted (lower : String → String) (ettl : Nat) (s : Svc)
     (hs : s.server = textOfName longHost) : ¬ SvcSafe lower ettl s := by
   intro h
   have hsrv : RespSpec.srvOf s ∈ RespSpec.own lower ettl s := by simp [RespSpec.own]
   have := (h _ hsrv).2.2.2.2
   simp only [wireOfRec, RespSpec.srvOf, RDataSafe] at this
   have hlab := this.2.2.2.1
-  rw [hs, glue longHost] at hlab
+  rw [hs, textGlue longHost] at hlab
   have hbad : ∃ l ∈ reencName longHost, ¬ l.length ≤ 63 := by decide +kernel
   obtain ⟨l, hl, hn⟩ := hbad
   exact hn (hlab l hl)
